@@ -33,6 +33,11 @@ pub enum DataSpec {
     Ff,
     Count,
     Hex { hex: String },
+    /// all zero except a few random bytes (and, always, the very last byte of the object)
+    Sparse { seed: u64 },
+    /// one random 13-byte pattern repeated: many symbols and blocks are byte-identical or shifted
+    /// copies of each other
+    Repeat { seed: u64 },
 }
 
 impl DataSpec {
@@ -51,6 +56,24 @@ impl DataSpec {
                 let mut v = crate::util::unhex(hex);
                 v.resize(len, 0);
                 v
+            }
+            DataSpec::Sparse { seed } => {
+                let mut r = Rng::new(*seed);
+                let mut v = vec![0u8; len];
+                if len > 0 {
+                    for _ in 0..(1 + len / 200).min(50) {
+                        let i = r.usize_below(len);
+                        v[i] = (r.below(255) + 1) as u8;
+                    }
+                    v[len - 1] = (r.below(255) + 1) as u8;
+                }
+                v
+            }
+            DataSpec::Repeat { seed } => {
+                let mut r = Rng::new(*seed);
+                let mut pat = [0u8; 13];
+                r.fill(&mut pat);
+                (0..len).map(|i| pat[i % 13]).collect()
             }
         }
     }
